@@ -758,8 +758,10 @@ pub(crate) fn solve_expression(
                                         }
                                     }
                                 }
+                                // NOTE: Like a nested block on its own, no matching element
+                                // means false, not missing
                                 if res != SolverResult::True {
-                                    return res;
+                                    return SolverResult::False;
                                 }
                             }
                             return SolverResult::True;
@@ -799,7 +801,7 @@ pub(crate) fn solve_expression(
                                     }
                                 }
                                 if res != SolverResult::True {
-                                    return res;
+                                    return SolverResult::False;
                                 }
                             }
                             return SolverResult::True;
